@@ -36,6 +36,26 @@ def is_short_decimal(x, digits=6):
     return (x * 10**digits).denominator == 1
 
 
+class Subs(dict):
+    """Substances are values: every other use of a model substance hands the library an EQUAL BUT DISTINCT Substance
+    object (a deep copy - what a user gets who reads a substance back from a container's contents, or constructs the same
+    substance twice).  VERIF_NO_TWINS=1 switches this off."""
+
+    def __init__(self, *a, **kw):
+        super().__init__(*a, **kw)
+        self.twins, self.n = {}, 0
+
+    def __getitem__(self, k):
+        o = super().__getitem__(k)
+        self.n += 1
+        if self.n % 2 or os.environ.get("VERIF_NO_TWINS"):
+            return o
+        if k not in self.twins:
+            import copy
+            self.twins[k] = copy.deepcopy(o)
+        return self.twins[k]
+
+
 class Inst:
     def __init__(self, pp, v, a, name=None, spell_seed=0):
         """pp: the imported pyplate.pyplate module (for config and the factories)."""
@@ -52,7 +72,7 @@ class Inst:
         self.precision = cfg.internal_precision
         self.vol_store_mult = PREFIX[cfg.volume_storage_unit[:-1]]         # L per storage unit
         self.mol_store_mult = PREFIX[cfg.moles_storage_unit[:-3]]          # mol per storage unit
-        self.subs = {}
+        self.subs = Subs()
         for s in KIND:
             self.subs[s] = self._make(s)
         self.by_obj = {id(o): s for s, o in self.subs.items()}
